@@ -1,8 +1,8 @@
 package checks
 
 import (
-	"math"
 	"fmt"
+	"math"
 	"math/big"
 	"strconv"
 	"strings"
@@ -173,6 +173,12 @@ func judgeNumFn(c NumFnCase) *eng.Fail {
 	}
 	if d, ok := dec(8); !ok || !d.Finite() || d.Cmp(x) != 0 {
 		return bad("finite", 8, x)
+	}
+	// none of these functions changes its argument (a number held in a local is read again afterwards)
+	if o2, err2 := evalWith("$x = "+X+", [[abs($x), ceil($x), floor($x), round($x), roundBank($x), toInt($x), toFloat($x), finite($x), toString($x), -$x, ~$x, max($x, $x), min($x)], $x === "+X+", $x]", map[string]interface{}{}); err2 == nil && !o2.panicked && o2.err == nil {
+		if a2, _ := o2.val.([]interface{}); len(a2) != 3 || a2[1] != interface{}(true) {
+			return eng.F("C18/argument-changed", "after abs ceil floor round roundBank toInt toFloat finite toString - ~ max min on $x = %s the local holds %s", X, show(o2.val.([]interface{})[len(o2.val.([]interface{}))-1]))
+		}
 	}
 	outcome("basic " + ratRoundHalfEven(xr).String())
 
